@@ -61,7 +61,7 @@ class Real:
         self.col = f"created_{gran}"
         self.mat_sql = self.pre.generate_materialization_sql(self.model)
         con = duckdb.connect(self.dbfile)
-        con.execute("SET TimeZone='UTC'")
+        con.execute("SET TimeZone='UTC'"); con.execute("SET threads=1"); con.execute("SET disabled_optimizers='statistics_propagation'")
         con.execute("CREATE TABLE ev (id INTEGER, created TIMESTAMP, v INTEGER)")
         con.close()
         self.nid = 0
@@ -69,7 +69,7 @@ class Real:
     def con(self):
         import duckdb
         c = duckdb.connect(self.dbfile)
-        c.execute("SET TimeZone='UTC'")
+        c.execute("SET TimeZone='UTC'"); c.execute("SET threads=1"); c.execute("SET disabled_optimizers='statistics_propagation'")
         return c
 
     def set_base(self, rows):
